@@ -139,7 +139,10 @@ class Plan:
             else:
                 inline.setdefault(p, []).insert(0, "?Sized")
         decl = list(m.lifetimes)
+        eliminated = {p for p, v in m.theta.items() if not params_of(v[1])}     # instantiated by a concrete type: not a parameter of this block
         for p in m.decl_order:
+            if p in eliminated:
+                continue
             bs = inline.get(p, [])
             decl.append(names[p] + (": " + " + ".join(bs) if bs else ""))
         generics = "<" + ", ".join(decl) + ">" if decl else ""
@@ -1088,6 +1091,12 @@ class PlanGen:
                 has_dflt = [n for _, n, d in plan.items if d]
                 m.overrides = {n for n in has_dflt if r.random() < 0.5}
                 members.append(m)
+            # a member whose header instantiates a trait-argument parameter of the family (nesting through the trait path)
+            targ_params = [t[1] for t in targs_ty if t[0] == "tp"]
+            if targ_params and len(members) >= 2 and r.random() < 0.4 and not use_default:
+                p_ = self.pick(targ_params)
+                if all(k.bounded != ("tp", p_) for k in keys) and not any(("tp", p_) == b_ for b_, _ in extra) and p_ not in [i for _, i in params_of(self_ty)]:
+                    members[-1].theta = {p_: ("ty", leaf(self.pick(["u32", "i64"])))}
             lt_args = [("lt_", g_[1]) for g_ in gens if g_[0] == "lt"]
             targs = lt_args + (targs_ty[:-1] if use_default else targs_ty) + [("cst_", c_) for c_ in cargs]
             if use_default and has_const:
@@ -1178,11 +1187,13 @@ class PlanGen:
         plan.dtraits = [DTrait("D0")] + ([DTrait("D1", assocs=("G", "H"))] if r.random() < 0.4 else [])
         plan.items = [("const", "NAME", False)] + ([("fn", "tag", False)] if r.random() < 0.6 else [])
         use_pfn = r.random() < 0.6
+        use_ltfn = r.random() < 0.7
         ntp = self.pick([1, 2, 2])
         has_const = r.random() < 0.35
-        has_lt = r.random() < 0.3
-        decl = (["'a"] if has_lt else []) + [f"A{i}" for i in range(ntp)] + (["const N: usize"] if has_const else [])
-        fields = ", ".join((["&'a ()"] if has_lt else []) + [f"PhantomData<A{i}>" for i in range(ntp)])
+        has_lt = r.random() < 0.45
+        two_lt = has_lt and r.random() < 0.5
+        decl = (["'a"] if has_lt else []) + (["'b"] if two_lt else []) + [f"A{i}" for i in range(ntp)] + (["const N: usize"] if has_const else [])
+        fields = ", ".join((["&'a ()"] if has_lt else []) + (["&'b ()"] if two_lt else []) + [f"PhantomData<A{i}>" for i in range(ntp)])
         plan.inherent_ty = f"pub struct Wr<{', '.join(decl)}>({fields});"
         nfam = self.pick([1, 1, 2])
         insts = []
@@ -1205,7 +1216,7 @@ class PlanGen:
                 # make the first family concrete at a position where this one is concrete with another type
                 continue
             insts.append(sig)
-            self_ty = ("ctor", "Wr", ([("alt", "'a")] if has_lt else []) + args + cargs)
+            self_ty = ("ctor", "Wr", ([("alt", "'a")] if has_lt else []) + ([("alt", "'b")] if two_lt else []) + args + cargs)
             nkeys = self.pick([1, 1, 2])
             keys, used = [], set()
             for _ in range(nkeys):
@@ -1230,7 +1241,9 @@ class PlanGen:
                 if r.random() < 0.5:
                     r.shuffle(m.decl_order)
                 m.inline = {ki: r.random() < 0.6 for ki in range(len(keys))}
-                m.lifetimes = ["'a"] if has_lt else []
+                m.lifetimes = (["'a"] if has_lt else []) + (["'b"] if two_lt else [])
+                if two_lt and r.random() < 0.5:
+                    m.lifetimes.reverse()
                 members.append(m)
             vis = {name: self.pick(["", "pub ", "pub(crate) "]) for _, name, _ in plan.items}
             for m in members:
@@ -1242,8 +1255,13 @@ class PlanGen:
             for f in plan.families:
                 for m in f.members:
                     m.vis["pf"] = f.members[0].vis.get("NAME", "")
+        if has_lt and use_ltfn:
+            plan.items.append(("ltfn", "lt", False))
+            for f in plan.families:
+                for m in f.members:
+                    m.vis["lt"] = f.members[0].vis.get("NAME", "")
         self.populate(plan)
-        plan.probes = [(ty.replace("'a", "'static"), ta) for ty, ta in plan.probes]
+        plan.probes = [(ty.replace("'a", "'static").replace("'b", "'static"), ta) for ty, ta in plan.probes]
         return plan
 
     def default_targs(self, plan):
